@@ -11,7 +11,7 @@ from lib import Case
 
 PROP = "C12"
 DRIVER = "drv-c12"
-PROOF_MODULES = ["TetlProofs.C12.Props", "TetlProofs.C12.PropsExt", "TetlProofs.C12.GenProps"]
+PROOF_MODULES = ["TetlProofs.C12.Props", "TetlProofs.C12.PropsExt", "TetlProofs.C12.PropsMixed", "TetlProofs.C12.GenProps"]
 HARNESS = "harness/c12.cpp"
 HARNESS_FLAGS = ["-g0", "-Wno-unused-function"]
 SOURCES = ["include/etl/_chrono/duration.hpp", "include/etl/_chrono/duration_cast.hpp", "include/etl/_chrono/floor.hpp",
@@ -26,8 +26,14 @@ RULE = ("integer representations (int64 x int64): every ordered pair of the ten 
         "products and exact result are representable (the same predicate as the hypotheses of the Lean theorems, evaluated with "
         "exact Python integers; floor / ceil: c * CF::num in intmax_t, the argument in the common type of the comparison, the exact "
         "result - the hypotheses of floor_eq_of_result / ceil_eq_of_result); int32 and mixed int32/int64 representations for the "
-        "periods {milli, 60, 1001/30000}; int16 x int16, uint32 x uint32, int64 -> int16, uint32 x int32 on the same periods "
-        "(all of int16's and uint32's boundary values, every function incl. the one-type operations on all twelve periods); "
+        "periods {milli, 60, 1001/30000}; int16 x int16, uint32 x uint32, int64 x int16, uint32 x int32, int64 x uint32, uint32 x int64, "
+        "int16 x int64, int32 x uint32, int16 x int32, int32 x int16 on the same periods "
+        "(all of int16's and uint32's boundary values, every function incl. the one-type operations on all twelve periods; "
+        "for + - / % the comparisons, time_point (+ -) duration, time_point - time_point and the compound assignments += -= %= "
+        "with a duration of the OTHER type, second operands 1, 3, 5, 1000, -7, -1 resp. 7, 2^31, 2^32 - 5, the least and the "
+        "greatest value of the second representation and a seeded one: an unsigned or most-negative second operand next to a "
+        "wider common type; a difference is inside the domain when the two converted operands and the DIFFERENCE are "
+        "representable - the sum need not be); "
         "single evaluations of the two known-finding classes (c * CF::num outside intmax_t with a representable result: the "
         "harness process ends with a UBSan report; floor / ceil / round on int32 x int32 around the count where the argument "
         "leaves the 32-bit common type, std column masked); two "
@@ -36,7 +42,8 @@ RULE = ("integer representations (int64 x int64): every ordered pair of the ten 
         "and seeded random magnitudes, compared bit for bit.  time_point: the same functions through "
         "time_point_cast / floor / ceil / round / comparisons / += / -= / ++ / --, and time_point + duration, duration + "
         "time_point, time_point - duration, time_point - time_point on 36 ordered pairs of int64 periods (ring of first "
-        "counts x fixed, seeded and large second counts, result in the common period) and on the int32 / mixed pairs.  "
+        "counts x fixed, seeded and large second counts incl. int64 min, min + 1, max; result in the common period) and on the "
+        "int32 / mixed / narrow / unsigned pairs (second counts incl. the least and greatest value of the representation).  "
         "duration * rep, rep * duration, duration / rep, duration % rep: every period x duration representation int32/int64 x "
         "scalar type int32/int64 (mixed pairs: the result has the wider representation) x counts x fixed, seeded and large "
         "scalars, restricted to representable products and to divisors other than 0 and min / -1; double x double.  A line carries up to 64 evaluations.  "
@@ -301,8 +308,10 @@ def dom1(op, r, a, b, rs=None):
         return True
     if op in ("inc", "dec"):
         return fits(w, a + 2) and fits(w, a - 2)
-    if op in ("adda", "suba"):
-        return fits(w, b) and fits(w, a + b) and fits(w, a - b)
+    if op == "adda":
+        return fits(w, b) and fits(w, a + b)
+    if op == "suba":
+        return fits(w, b) and fits(w, a - b)        # x -= min is inside for x < 0: only the difference has to be representable
     if op == "mula":
         return fits(w, b) and fits(w, a * b)
     if op in ("diva", "moda", "modad"):
@@ -319,6 +328,7 @@ OPS_BIN = ["add", "sub", "div", "mod", "cmp", "common"]
 OPS_TP2 = ["tp_cast", "tp_floor", "tp_ceil", "tp_round", "tp_cmp", "tp_conv"]
 OPS_ONE = ["abs", "neg", "pos", "inc", "dec", "adda", "suba", "mula", "diva", "moda", "modad", "tp_adda", "tp_suba", "tp_inc"]
 OPS_TPD = ["tp_plus", "tp_minus", "tp_diff"]          # [time.point.nonmember]
+EDGE_B = ("adda", "suba", "tp_adda", "tp_suba")       # second operand also the least / greatest value of the representation
 OPS_ASSIGN2 = ["adda2", "moda2", "tp_adda2"]           # compound assignment with a duration of another type
 OPS_SCALAR = ["mul", "divr", "modr"]                   # [time.duration.nonmember]: duration and a tick count
 
@@ -492,7 +502,8 @@ def generate(tier, seed):
             for op in OPS_ONE:
                 if op == "abs" and not REPS[r1][1]:
                     continue                     # abs participates only for a signed representation
-                for b in ([0] if op in ("abs", "neg", "pos", "inc", "dec", "tp_inc") else [1, 3, 7, rnd.choice(nvals[r1])] + ([-7, -1] if REPS[r1][1] else [])):
+                for b in ([0] if op in ("abs", "neg", "pos", "inc", "dec", "tp_inc") else [1, 3, 7, rnd.choice(nvals[r1])] + ([-7, -1] if REPS[r1][1] else [])
+                          + ([rmin(REPS[r1]), rmax(REPS[r1])] if op in EDGE_B else [])):
                     emit(op, r1, k1, None, None, nvals[r1], b)
             for rs in ("i32", "i64"):
                 for op in OPS_SCALAR:
@@ -503,7 +514,8 @@ def generate(tier, seed):
         a_big = i32big if r1 == "i32" else big
         for k1 in range(12):
             for op in OPS_ONE:
-                for b in ([0] if op in ("abs", "neg", "pos", "inc", "dec", "tp_inc") else [-7, -1, 1, 3, rnd.choice(a_big)]):
+                for b in ([0] if op in ("abs", "neg", "pos", "inc", "dec", "tp_inc") else [-7, -1, 1, 3, rnd.choice(a_big)]
+                          + ([rmin(REPS[r1]), rmax(REPS[r1])] if op in EDGE_B else [])):
                     emit(op, r1, k1, None, None, ring + a_big, b)
             # duration<r1> (* / %) scalar of type rs, incl. the mixed pairs (the result has the wider representation)
             for rs in ("i32", "i64"):
@@ -680,7 +692,7 @@ def run(ctx, replay=None):
 CLAIMED = True
 TECHNIQUE = ("Lean 4 proof: hand model of ratio / ratio_divide / common_type / the four duration_cast bodies / converting "
              "constructor / operators (incl. duration and tick count, time_point and duration) / floor / ceil / round / abs / "
-             "the time_point members and casts / zero, min, max / the named aliases "
+             "the time_point members and casts / compound assignment with a duration of another type / zero, min, max / the named aliases "
              "(C++ integer types, overflow = error) = exact rational (Q) "
              "semantics for all periods and counts in the documented domain; model tied to the code by an exhaustive-box + "
              "boundary + seeded correspondence run against the implementation and libstdc++; the four duration_cast_impl::cast "
@@ -708,6 +720,16 @@ LEVEL_TEXT = ("Proved in Lean 4, for every pair of periods with positive numerat
               "time_point - duration, time_point - time_point, abs, unary plus: signed 32..64-bit representations, operands "
               "representable in the common type, exact result representable; unary minus and += -= *= ++ -- (duration and "
               "time_point) also on int8/int16/uint8/uint16/uint32; /= %=. "
+              "(3b) MIXED representations: the conversion to the common type, + - / % of two durations, == != < <= > >= of "
+              "durations and of time_points, time_point + duration, duration + time_point, time_point - duration, time_point - "
+              "time_point for EVERY ordered pair of the representations int8..int64, uint8..uint32 (49 pairs, `_builtin` theorems): "
+              "both operands are converted to the common type first ([time.duration.nonmember], [time.point.nonmember]) and the "
+              "result is the exact sum / difference / quotient / remainder / comparison, under exactly 'both converted operands "
+              "and the exact result are values of the common representation' - a difference does not need the negated second "
+              "operand to be representable in ITS representation (tpMinus_ne_plus_neg_counterexample: lhs + (-rhs) differs for "
+              "an unsigned rhs narrower than the common type, for the most negative signed rhs and for int16 min); "
+              "+= -= %= of a duration and += -= of a time_point with a duration of another type (converted first by the "
+              "implicit constructor, assign2_eq). "
               "(4) zero / min / max of duration and time_point are 0 and the least / greatest value of the representation; the ten "
               "named aliases nanoseconds..years have the periods of [time.syn] and signed representations of at least the required "
               "width (complete check). "
@@ -716,7 +738,7 @@ LEVEL_TEXT = ("Proved in Lean 4, for every pair of periods with positive numerat
               "harness' integer representations and proved equal to the model's castCore for every count and every conversion "
               "factor, their undefined-behaviour obligations (product in intmax_t, divisor non-zero, not min / -1) being exactly "
               "'castCore returns a value'. "
-              "Every operation on floating-point representations, and floor / ceil / round / the binary operators on int16 and "
+              "Every operation on floating-point representations, and floor / ceil / round / abs / duration (* / %) rep on int16 and "
               "uint32 representations, are compared differentially only. The model is tied to the current source on every run "
               "by running model, implementation, Lean spec and libstdc++ on the same inputs under ASan/UBSan: all 100 ordered "
               "period pairs x all counts in [-2000, 2000] for the four casts (int64), boundary values around 2^31 and 2^62, int32, "
@@ -728,7 +750,7 @@ LEVEL_NOTE = ("Trusted: Lean kernel + propext/Classical.choice/Quot.sound; the h
               "time_since_epoch(), and tpCast/tpFloor/.../tpEq... of the model are by definition the duration functions the source "
               "forwards to); the C14 gcd/lcm model; g++-12/ASan/UBSan; libstdc++ std::chrono as oracle for spec validation. The "
               "hypotheses of the theorems are decidable predicates (RepOk, Builtin, PerOk, DivOk, CommonOk, CastTyOkB, CastIn, "
-              "PairIn, RoundIn, ScalarTyOk, MulIn, DivIn) that the generator evaluates with exact integers. "
+              "PairIn, PairTyOkB, RoundIn, ScalarTyOk, MulIn, DivIn) that the generator evaluates with exact integers. "
               "DEVIATION from the property text ('every tick count whose exact result is representable'), now exact: "
               "duration_cast meets the wording except on the class {CF::num != 1, CF::den != 1, c * CF::num outside intmax_t} "
               "(example: duration_cast<duration<int64, ratio<1,3>>>(duration<int64, ratio<5,7>>{2^60}); the review's example 2^62 "
@@ -744,8 +766,9 @@ LEVEL_NOTE = ("Trusted: Lean kernel + propext/Classical.choice/Quot.sound; the h
               "were added to tetl by two fix commits (fixed findings); if one of them is not declared the harness prints "
               "`missing`, which is a violation.")
 # members modelled and compared on every run but without a Lean theorem yet
-CORRESPONDENCE_ONLY = ["floor / ceil / round, the binary operators through the common type, abs, duration (* / %) rep on int16 and "
-                       "uint32 representations (the theorems cover signed 32..64-bit representations there)",
+CORRESPONDENCE_ONLY = ["floor / ceil / round, abs, duration (* / %) rep on int16 and uint32 representations (the theorems cover "
+                       "signed 32..64-bit representations there; the binary operators through the common type, the comparisons and "
+                       "the time_point operators are proved for every pair of int8..int64, uint8..uint32)",
                        "all operations on floating-point representations"]
 THEOREMS = {
     "cast": ["C12.GenProps.gen_cast_%s_%s_%s" % (sh, t, f) for sh in ("nd", "d", "n", "id")
@@ -755,10 +778,11 @@ THEOREMS = {
     "floor": ["C12.Props.floor_eq", "C12.Props.floor_eq_of_result"], "tp_floor": ["C12.Props.tpRounding_eq"],
     "ceil": ["C12.Props.ceil_eq", "C12.Props.ceil_eq_of_result"], "tp_ceil": ["C12.Props.tpRounding_eq"],
     "round": ["C12.Props.round_eq"], "tp_round": ["C12.Props.tpRounding_eq"],
-    "add": ["C12.Props.add_exact"], "sub": ["C12.Props.sub_exact"],
-    "cmp": ["C12.Props.eq_eq", "C12.Props.lt_eq", "C12.Props.cmp_derived_eq"],
-    "tp_cmp": ["C12.Props.tpCmp_eq"],
-    "common": ["C12.Props.common_exact"], "ctype": ["C12.Props.commonPeriod_eq"],
+    "add": ["C12.Props.add_exact", "C12.Props.add_exact_builtin"], "sub": ["C12.Props.sub_exact", "C12.Props.sub_exact_builtin"],
+    "cmp": ["C12.Props.eq_eq", "C12.Props.lt_eq", "C12.Props.cmp_derived_eq", "C12.Props.eq_eq_builtin", "C12.Props.lt_eq_builtin",
+            "C12.Props.cmp_derived_eq_builtin"],
+    "tp_cmp": ["C12.Props.tpCmp_eq", "C12.Props.tpCmp_eq_builtin"],
+    "common": ["C12.Props.common_exact", "C12.Props.common_exact_builtin"], "ctype": ["C12.Props.commonPeriod_eq"],
     "conv": ["C12.Props.common_exact", "C12.Props.convert_exact", "C12.Props.convert_exact_builtin"],
     "tp_conv": ["C12.Props.tpConvert_exact"], "pos": ["C12.Props.pos_eq"],
     "abs": ["C12.Props.abs_eq"], "neg": ["C12.Props.neg_eq", "C12.Props.assign_builtin"],
@@ -766,10 +790,14 @@ THEOREMS = {
     "inc": ["C12.Props.addAssign_eq", "C12.Props.assign_builtin"],
     "suba": ["C12.Props.subAssign_eq", "C12.Props.assign_builtin"], "tp_suba": ["C12.Props.tpAssign_eq"],
     "dec": ["C12.Props.subAssign_eq", "C12.Props.assign_builtin"], "tp_inc": ["C12.Props.tpAssign_eq"],
-    "mula": ["C12.Props.mulAssign_eq", "C12.Props.assign_builtin"], "div": ["C12.Props.div_eq"], "mod": ["C12.Props.mod_exact"],
+    "mula": ["C12.Props.mulAssign_eq", "C12.Props.assign_builtin"], "div": ["C12.Props.div_eq", "C12.Props.div_eq_builtin"],
+    "mod": ["C12.Props.mod_exact", "C12.Props.mod_exact_builtin"],
     "diva": ["C12.Props.divAssign_eq"], "moda": ["C12.Props.modAssign_eq"], "modad": ["C12.Props.modAssign_eq"],
     "mul": ["C12.Props.mulRep_exact"], "divr": ["C12.Props.divRep_exact"], "modr": ["C12.Props.modRep_exact"],
-    "tp_plus": ["C12.Props.tpPlus_exact"], "tp_minus": ["C12.Props.tpMinus_exact"], "tp_diff": ["C12.Props.tpDiff_exact"],
+    "tp_plus": ["C12.Props.tpPlus_exact", "C12.Props.tpPlus_exact_builtin"],
+    "tp_minus": ["C12.Props.tpMinus_exact", "C12.Props.tpMinus_exact_builtin", "C12.Props.tpMinus_ne_plus_neg_counterexample"],
+    "tp_diff": ["C12.Props.tpDiff_exact", "C12.Props.tpDiff_exact_builtin"],
+    "adda2": ["C12.Props.assign2_eq"], "moda2": ["C12.Props.assign2_eq"], "tp_adda2": ["C12.Props.assign2_eq"],
     "limits": ["C12.Props.limits_eq"], "named": ["C12.Props.named_eq"],
 }
 
